@@ -52,6 +52,8 @@ def showEv : Ev → String
   | .get k => "g:" ++ toHex k
   | .order d => "o:" ++ toHex d
   | .put k => "u:" ++ toHex k
+  | .account tos email eab => s!"a:{if tos then 1 else 0}/{toHex email}/{if eab then 1 else 0}"
+  | .csr d ext => s!"c:{toHex d}/{if ext then 1 else 0}"
 
 def showRes : Res → String
   | .errName | .errIdna | .errNoToken | .errPolicy | .errCache | .errIssue => "err"
@@ -98,7 +100,15 @@ def world? (o : Op) : Option World := do
   let toks ← match o.get? "tokens" with
     | none => some []
     | some s => keyed? cert? s
-  pure { whitelist := wl, cache := cache, state := st, ca := ca, tokens := toks }
+  -- acct=<terms>/<prompt nil|1|0>/<email hex>/<eab>/<ext>
+  let acct ← match o.get? "acct" with
+    | none => some ({} : Acct)
+    | some s => match s.splitOn "/" with
+      | [t, p, e, b, x] => do
+        let prompt ← if p == "nil" then some none else (bool? p).map some
+        pure { terms := ← bool? t, prompt := prompt, email := ← ofHex e, eab := ← bool? b, extraExt := ← bool? x }
+      | _ => none
+  pure { whitelist := wl, cache := cache, state := st, ca := ca, tokens := toks, acct := acct }
 
 def joinOr (l : List String) : String := if l.isEmpty then "-" else ",".intercalate l
 
@@ -115,7 +125,8 @@ def handleGc (o : Op) : String :=
   match world? o, hello? o "", ascii? o "ascii", o.int? "now" with
   | some w, some h, some a, some now =>
     let (evs, res, _) := getCertificate w h a now
-    s!"{showRes res} ev={joinOr (evs.map showEv)}"
+    let np := if o.get? "via" == some "tls" then " np=" ++ joinOr (tlsNextProtos.map toHex) else ""
+    s!"{showRes res} ev={joinOr (evs.map showEv)}{np}"
   | _, _, _, _ => "bad-op"
 
 /-- insertion sort on strings (result multiset in canonical order) -/
@@ -137,7 +148,7 @@ def runCalls (spec : Bool) (o : Op) (w : World) : List String → Option (List (
       -- `spec`: answer what the property demands (a stale m.state entry is not served); the state is
       -- threaded as the code does it in both cases
       let (evs, res, st) := if spec then conform w h a now else getCertificate w h a now
-      let r ← runCalls spec o { w with state := st } rest
+      let r ← runCalls spec o { w with state := st, acct := { w.acct with registered := registeredAfter w evs } } rest
       pure ((evs, res) :: r)
     | _ => none
 
@@ -162,12 +173,48 @@ def handleConc (o : Op) : String :=
     | none => "bad-op"
   | _, _ => "bad-op"
 
+/-- `httph wl= htok=<path>:<val>,… tcache=nil|miss|<hex> fb=0/1 method= host= path= uri= hnp= ckey=` -/
+def handleHttph (o : Op) : String :=
+  let wl? := match o.get? "wl" with
+    | none => none
+    | some "nil" => some none
+    | some s => (hexList? s).map some
+  let tc? : Option (Option (Option Bytes)) := match o.get? "tcache" with
+    | none => none
+    | some "nil" => some none
+    | some "miss" => some (some none)
+    | some s => (ofHex s).map fun b => some (some b)
+  match wl?, (o.get? "htok").bind (keyed? ofHex), tc?, (o.get? "fb").bind bool?, o.hex? "method", o.hex? "host",
+        o.hex? "path", o.hex? "uri", o.hex? "hnp", o.hex? "ckey" with
+  | some wl, some htok, some tc, some fb, some m, some host, some path, some uri, some hnp, some ck =>
+    let w : World := { whitelist := wl, cache := none, state := [], ca := fun _ => none }
+    let (evs, r) := httpHandler w htok tc (!fb) m host path uri hnp ck
+    let rs := match r with
+      | .status c b => s!"{c} body={toHex b}"
+      | .redirect l => s!"302 loc={toHex l}"
+      | .fallback => "fallback"
+    s!"{rs} ev={joinOr (evs.map showEv)}"
+  | _, _, _, _, _, _, _, _, _, _ => "bad-op"
+
+/-- `dirc ops=p:<k>:<v>,g:<k>,d:<k>` (hex) -/
+def handleDirc (o : Op) : String :=
+  let op? (s : String) : Option DirOp := match s.splitOn ":" with
+    | ["p", k, v] => do pure (.put (← ofHex k) (← ofHex v))
+    | ["g", k] => (ofHex k).map .get
+    | ["d", k] => (ofHex k).map .del
+    | _ => none
+  match (o.get? "ops").bind fun s => (s.splitOn ",").mapM op? with
+  | some ops => "get=" ++ joinOr ((dirRun [] ops).map fun | none => "miss" | some v => toHex v)
+  | none => "bad-op"
+
 def handle (line : String) : String :=
   let o := parseOp line
   if o.cmd == "next" then handleNext o
   else if o.cmd == "gc" then handleGc o
   else if o.cmd == "hist" then handleHist o
   else if o.cmd == "conc" then handleConc o
+  else if o.cmd == "httph" then handleHttph o
+  else if o.cmd == "dirc" then handleDirc o
   else "bad-op"
 
 end XC.C51
